@@ -73,7 +73,7 @@ func sample(o *outcome) interface{} {
 	c := *o
 	c.Results = nil
 	for _, r := range o.Results {
-		if r.Desig || (!r.ok() && !strings.HasPrefix(r.Kind, "connect-")) {
+		if r.Desig || r.Holder || (!r.ok() && !strings.HasPrefix(r.Kind, "connect-")) {
 			c.Results = append(c.Results, r)
 		}
 	}
@@ -160,6 +160,8 @@ func judge(rt ev.TB, o *outcome) {
 			where := "background-undispatched"
 			if r.Desig {
 				where = cs.Phase
+			} else if r.Holder {
+				where = "held-by-upstream"
 			} else if r.upSeen() > 0 {
 				where = "background-dispatched"
 			}
